@@ -12,6 +12,9 @@ CONSTANTS
  MaxBad = 1
  MaxRestore = 0
  MaxBadUnit = 1
+ DocNKeys = 1
+ DocShapes = {"p"}
+ DocMaxBatch = 1
  SimMode = FALSE
 INVARIANT Convergence
 INVARIANT RefOutcome
@@ -23,6 +26,7 @@ INVARIANT CausalTs
 INVARIANT IdsUnique
 INVARIANT UnitsWellFormed
 INVARIANT PlainRefinement
+INVARIANT DocObjRule
 PROPERTY TxAbortIsNoop
 PROPERTY InvalidIsNoop
 VIEW StateView
